@@ -513,8 +513,9 @@ ABTU_ret_err static inline int ABTI_mem_alloc_desc(ABTI_local *p_local,
     void *p_desc;
     ABTI_xstream *p_local_xstream = ABTI_local_get_xstream_or_null(p_local);
     if (ABTI_IS_EXT_THREAD_ENABLED && p_local_xstream == NULL) {
-        /* For external threads */
-        int abt_errno = ABTU_malloc(ABTI_MEM_POOL_DESC_SIZE, &p_desc);
+        /* For external threads.  The block must include the last four bytes
+         * that keep the "allocated by malloc()" flag. */
+        int abt_errno = ABTU_malloc(ABTI_MEM_POOL_DESC_ELEM_SIZE, &p_desc);
         ABTI_CHECK_ERROR(abt_errno);
         *(uint32_t *)(((char *)p_desc) + ABTI_MEM_POOL_DESC_SIZE) = 1;
         *pp_desc = p_desc;
